@@ -6,7 +6,7 @@ import core
 
 
 def scen_check(module, level, rule, min_obs_quick=None, min_obs_thorough=None, config="asan",
-               assumptions=None, exhaustive_thorough=False):
+               assumptions=None, exhaustive_thorough=False, exhaustive_quick=False):
     """module: engine module name, or a list of (module, config) pairs whose results are merged."""
     mods = module if isinstance(module, list) else [(module, config)]
 
@@ -44,7 +44,7 @@ def scen_check(module, level, rule, min_obs_quick=None, min_obs_thorough=None, c
         mo = None if replay else (min_obs_quick if tier == "quick" else (min_obs_thorough or min_obs_quick))
         return core.conclude(prop, tier, seed, level, total, viols, t0, rule, min_obs=mo,
                              assumptions=assumptions,
-                             exhaustive=exhaustive_thorough and tier == "thorough")
+                             exhaustive=(exhaustive_thorough and tier == "thorough") or exhaustive_quick)
     return {"run": run, "level": level, "module": module}
 
 
@@ -150,6 +150,31 @@ CHECKS = {
         "sigmask, 64-entry sigaction table, cwd and environ are snapshotted immediately before and after every reproc_start "
         "return; the helper reports SigBlk/SigIgn as it found them at exec; faults in the restoring sigmask call are exempt",
         {"caller_checks": 5000, "child_sig_checks": 2000, "faults_fired": 3000}, config="asan-nd", assumptions=KERNEL_TRUST),
+    "C10": scen_check(
+        "eng_ident", "exploration",
+        "all 6x6x7 explicit per-stream redirect type combinations plus the shorthands and the all-defaults case, each with the "
+        "parent's descriptors 0/1/2 open or closed in all 8 combinations (exhaustive over the stated quantifier in both "
+        "tiers: 262 configurations x 8 masks = 2096 cases); the helper child reports "
+        "(st_dev, st_ino, st_rdev, mode, access mode) of its descriptors 0/1/2 as found at exec, compared with the object the "
+        "options designate; parent-side pipe ends and read/write EPIPE behaviour checked; non-trivial = a child reported",
+        {"streams_checked": 6000, "configs": 262, "pipes_checked": 1000, "nulldev_fallbacks": 400},
+        assumptions=KERNEL_TRUST, exhaustive_thorough=True, exhaustive_quick=True),
+    "C11": scen_check(
+        "eng_ident", "exploration",
+        "the parent opens 1-300 extra descriptors (files, pipes, sockets; half without close-on-exec) at random numbers up to "
+        "limit-1 (always including limit-1 in a third of the cases) under RLIMIT_NOFILE in {64,256,1024,4096,20000}, with 8 "
+        "redirect families and closed std descriptors; the helper lists /proc/self/fd before opening anything; non-trivial = "
+        "a child reported its table (concurrent starts from threads are exercised by C20's engine)",
+        {"children_checked": 600, "noncloexec_extra": 2000, "limit_minus_1_cases": 100, "limits": 3}, assumptions=KERNEL_TRUST),
+    "C03": scen_check(
+        "eng_ident", "exploration",
+        "argv of 0-59 strings over bytes 1-255 (empty, blanks, quotes, backslashes, '=', invalid UTF-8, up to 70 kB each), "
+        "extra environments with duplicates, parent environments of 0-200 random entries, both env behaviours, working "
+        "directories, programs named by absolute path, three relative forms (with a decoy of the same name in the requested "
+        "working directory), bare name through PATH, parent cwd of 1.8-18 kB depth; the helper reports argv/env/cwd/exe; "
+        "non-trivial = a launch was compared",
+        {"launches_checked": 1000, "args_compared": 5000, "env_entries_compared": 5000, "relative_programs": 300,
+         "deep_cwd_cases": 100, "path_searches": 100}, assumptions=KERNEL_TRUST),
 }
 
 
@@ -219,10 +244,28 @@ MANIFEST_TEXT = {
             "Caller state is snapshotted immediately around every reproc_start return (success and every faulted failure path) and must be "
             "identical; the started program reports the signal mask and ignore set it was exec'ed with.",
             "a fault injected into the restoring sigmask call itself is exempt, as the property states", "DESIGN.md 3/C12"),
+    "C10": ("ident", "runtime monitor: identity (st_dev, st_ino, st_rdev, access mode) of the child's descriptors 0/1/2 vs the object the options designate",
+            "The started program itself reports what its descriptors 0, 1 and 2 are, as found at exec; the oracle computes the "
+            "expected object from the documented effective redirect (pipe created in this start with the parent holding the other "
+            "end; the parent's own stream or the null device when the parent has none; null device; the child's stdout; the supplied "
+            "handle/FILE; the path). The whole stated configuration space (262 x 8) is enumerated.",
+            "user handles are opened before 0-2 are closed so they stay >= 3 (crossing user handles onto 0-2 is outside the stated quantifier)",
+            "DESIGN.md 3/C10"),
+    "C11": ("ident", "runtime monitor: the child's /proc/self/fd listing taken before it opens anything",
+            "With up to 300 extra descriptors of mixed kinds open in the parent at random numbers up to limit-1 (half without "
+            "close-on-exec), the started program must see exactly 0, 1, 2 and one pipe (the exit handle).",
+            "concurrent starts from several threads are observed by the C20 engine, not here", "DESIGN.md 3/C11"),
+    "C03": ("ident", "runtime monitor: the child's own report of argv, envp, cwd and executable vs the generator's expectation",
+            "The helper finds its control socket through a file next to its executable, so argv and the environment are entirely "
+            "under test; it reports them byte for byte together with cwd and /proc/self/exe; decoy programs of the same relative "
+            "name make resolution against the wrong directory visible.",
+            "PATH search only where parent and child PATH agree; beyond PATH_MAX only a clean failure is required (ASan watches the buffer arithmetic)",
+            "DESIGN.md 3/C03"),
 }
 
-ENGINE_PATHS = {"life": "eng_life.py", "poll": "eng_poll.py", "io": "eng_io.py", "fault": "eng_fault.py"}
+ENGINE_PATHS = {"life": "eng_life.py", "poll": "eng_poll.py", "io": "eng_io.py", "fault": "eng_fault.py", "ident": "eng_ident.py"}
 ENGINE_KINDS = {
+    "ident": "helper child reports its own fd table / argv / env / cwd over a control socket found via its executable's directory",
     "fault": "fault injector in the interposition layer; call sites discovered by tracing; scenario runner as vehicle",
     "io": "scenario runner on a virtual clock; position-coded streams; recording sinks; ground-truth stream model",
     "poll": "scenario runner on a virtual clock; ground-truth stream state model (lib/model_io.py)",
